@@ -32,6 +32,47 @@ pub(crate) struct Matcher {
 
     /// Modifiers related to matching.
     pub(crate) modifiers: Modifiers,
+
+    /// How the string was compiled (verification hook, never read by the engine).
+    #[cfg(boreal_verif)]
+    verif: Option<Box<VerifHirs>>,
+}
+
+/// HIR values a matcher was built from (verification hook).
+#[cfg(boreal_verif)]
+#[derive(Clone, Debug)]
+struct VerifHirs {
+    hir: Hir,
+    pre_hir: Option<Hir>,
+    post_hir: Option<Hir>,
+}
+
+#[cfg(boreal_verif)]
+impl PartialEq for VerifHirs {
+    fn eq(&self, _other: &Self) -> bool {
+        true
+    }
+}
+
+/// Description of how a string was compiled (verification hook).
+#[cfg(boreal_verif)]
+#[doc(hidden)]
+#[derive(Clone, Debug)]
+pub struct VerifStringDesc {
+    /// Literals searched by the Aho-Corasick pass.
+    pub literals: Vec<Vec<u8>>,
+    /// For each literal, the (left, right) offsets of the atom picked in it.
+    pub atom_offsets: Vec<(usize, usize)>,
+    /// Matcher kind, as given by the statistics (`Literals`, `Atomized { .. }`, `Raw`).
+    pub kind: String,
+    /// (fullword, wide, ascii, nocase, dot_all) modifiers.
+    pub modifiers: (bool, bool, bool, bool, bool),
+    /// HIR of the whole string (unset for text strings and deserialized scanners).
+    pub hir: Option<Hir>,
+    /// HIR given to the reverse validator.
+    pub pre_hir: Option<Hir>,
+    /// HIR given to the forward validator.
+    pub post_hir: Option<Hir>,
 }
 
 #[derive(Copy, Clone, Default, Debug, PartialEq)]
@@ -121,6 +162,12 @@ impl Matcher {
                 literals: Box::new([]),
                 kind,
                 modifiers,
+                #[cfg(boreal_verif)]
+                verif: Some(Box::new(VerifHirs {
+                    hir: hir.clone(),
+                    pre_hir: None,
+                    post_hir: None,
+                })),
             });
         }
 
@@ -133,6 +180,12 @@ impl Matcher {
                         literals: literals.into_iter().map(Vec::into_boxed_slice).collect(),
                         kind: MatcherKind::Literals,
                         modifiers,
+                        #[cfg(boreal_verif)]
+                        verif: Some(Box::new(VerifHirs {
+                            hir: hir.clone(),
+                            pre_hir: None,
+                            post_hir: None,
+                        })),
                     });
                 }
             }
@@ -173,6 +226,12 @@ impl Matcher {
             literals: literals.into_iter().map(Vec::into_boxed_slice).collect(),
             kind,
             modifiers,
+            #[cfg(boreal_verif)]
+            verif: Some(Box::new(VerifHirs {
+                hir: hir.clone(),
+                pre_hir,
+                post_hir,
+            })),
         })
     }
 
@@ -215,6 +274,8 @@ impl Matcher {
                     dot_all: false,
                     xor_start: Some(xor_details.0),
                 },
+                #[cfg(boreal_verif)]
+                verif: None,
             };
         }
 
@@ -261,6 +322,32 @@ impl Matcher {
                 dot_all: false,
                 xor_start: None,
             },
+            #[cfg(boreal_verif)]
+            verif: None,
+        }
+    }
+
+    /// Describe how the string was compiled (verification hook).
+    #[cfg(boreal_verif)]
+    pub fn verif_describe(&self) -> VerifStringDesc {
+        VerifStringDesc {
+            literals: self.literals.iter().map(|l| l.to_vec()).collect(),
+            atom_offsets: self
+                .literals
+                .iter()
+                .map(|l| crate::atoms::pick_atom_in_literal(l))
+                .collect(),
+            kind: self.to_desc(),
+            modifiers: (
+                self.modifiers.fullword,
+                self.modifiers.wide,
+                self.modifiers.ascii,
+                self.modifiers.nocase,
+                self.modifiers.dot_all,
+            ),
+            hir: self.verif.as_ref().map(|v| v.hir.clone()),
+            pre_hir: self.verif.as_ref().and_then(|v| v.pre_hir.clone()),
+            post_hir: self.verif.as_ref().and_then(|v| v.post_hir.clone()),
         }
     }
 
@@ -479,6 +566,8 @@ mod wire {
                 literals: literals.into_iter().map(Vec::into_boxed_slice).collect(),
                 kind,
                 modifiers,
+                #[cfg(boreal_verif)]
+                verif: None,
             })
         }
     }
